@@ -321,6 +321,17 @@ def check(tier, seed):
             r = base.index("R 0 0")
             for dpos in range(r + 1, len(base) + 1):
                 hs.append(["CL 2 1", "R 0 0", "R 1 0"] + base[:dpos] + ["D 1 0 0 3"] + base[dpos:] + ["Q"])
+    # a full-state merge that already carries a claim reaches an instance BEFORE that claim's announcement does
+    for n in (2, 3):
+        for first in (0, 1):
+            other = 1 - first
+            h = ["CL %d 1" % n, "R %d 0" % first, "R %d 0" % other, "S m %d" % other]
+            h += ["M %d m" % y for y in range(n) if y != other]
+            h += ["D %d %d 0 2" % (y, other) for y in range(n) if y != other] + ["D %d %d 0 1" % (y, first) for y in range(n) if y != first] + ["Q"]
+            hs.append(h)
+            # ... and the same with the merge between the two registrations of a re-registering instance
+            hs.append(["CL %d 1" % n, "R %d 0" % first, "S m %d" % first, "M %d m" % other, "R %d 0" % other, "S m2 %d" % other, "M %d m2" % first,
+                       "D %d %d 0 2" % (first, other), "D %d %d 0 1" % (other, first), "Q"])
     for _ in range(120 if tier == "quick" else 4000):
         hs.append(random_history(rng, rng.range(2, 4), rng.range(1, 3)))
     err, impl = run_impl(hs, "main")
